@@ -49,19 +49,20 @@ inductive ReadErr where
   | tooSmall       -- ErrPayloadTooSmall
   deriving DecidableEq, Repr
 
-/-- `io.ReadFull(c, buf)` with `len(buf) = n`: reads exactly `n` bytes across
-chunk boundaries. -/
-def readFullAux : (fuel : Nat) → Stream → Nat → Bytes → Except ReadErr (Bytes × Stream)
-  | _, c, 0, acc => .ok (acc, c)
-  | _, [], _ + 1, acc => if acc.isEmpty then .error .eof else .error .unexpectedEOF
-  | 0, _, _ + 1, _ => .error .unexpectedEOF
-  | fuel + 1, chunk :: rest, n + 1, acc =>
+/-- `io.ReadFull(c, buf)` with `len(buf) = n`: reads exactly `n` more bytes
+across chunk boundaries (`acc` is what was read so far). `io.EOF` if nothing
+at all could be read, `io.ErrUnexpectedEOF` if the stream ends inside. -/
+def readFullAux (c : Stream) (n : Nat) (acc : Bytes) : Except ReadErr (Bytes × Stream) :=
+  match c, n with
+  | c, 0 => .ok (acc, c)
+  | [], _ + 1 => if acc.isEmpty then .error .eof else .error .unexpectedEOF
+  | chunk :: rest, n + 1 =>
     if chunk.length ≤ n + 1 then
-      readFullAux fuel rest (n + 1 - chunk.length) (acc ++ chunk)
+      readFullAux rest (n + 1 - chunk.length) (acc ++ chunk)
     else
       .ok (acc ++ chunk.take (n + 1), chunk.drop (n + 1) :: rest)
 
 def readFull (c : Stream) (n : Nat) : Except ReadErr (Bytes × Stream) :=
-  readFullAux (c.length + 1) c n []
+  readFullAux c n []
 
 end Go
